@@ -37,7 +37,8 @@ theorem serve_mlstep (c : Conn) (sid : Nat) (a b : Bool) (fs : Int) :
     have hsid := (Conn.find?_mem hf).2
     split
     · intro hno
-      exact .discard ⟨rfl, rfl, rfl, rfl, rfl⟩ sid (ml_filter _ _) rfl hno
+      rename_i hdone
+      exact .discard ⟨rfl, rfl, rfl, rfl, rfl⟩ sid st hf hdone (ml_filter _ _) rfl hno
     · split
       · intro hno; exact .same (Cfg.refl _) rfl rfl hno
       · split
@@ -321,7 +322,7 @@ theorem Q.step {c c' : Conn} {prev : List Out} {out : Out} (h : Q c prev) (hs : 
       rcases (mem_msdOf_snoc _ _ _ _).mp hv with hv | hv
       · exact h.dead sid' h1' h2 v hv
       · exact hno _ _ hv
-  | discard cfg sid hml hfin hno =>
+  | discard cfg sid st0 hf0 hdone0 hml hfin hno =>
     refine ⟨?_, ?_, ?_⟩
     · rw [hml]
       exact List.Nodup.sublist (List.Sublist.map _ List.filter_sublist) h.nodup
